@@ -50,6 +50,7 @@ class SendDataInChunks(Contract):
     params = dict(command=INT_, operation=INT_, next_operations=LIST(INT_), data=BYTES_, expect_full_data=BOOL_,
                   initial_bytes=INT_, operation_name=STR_, data_description=STR_)
     result = TUPLE(BOOL_, BYTES_)
+    modifies_self = dict(last_comm_exception=OPAQUE("last_comm_exception"))
     loop_locals = {0: dict(response=BYTES_)}
 
     def pre_bytes(command, operation, initial_bytes):
